@@ -12,7 +12,10 @@ class StackFrame:
         self.return_addr = None
 
     def get_variable(self, identifier):
-        for place in (self.constants, self.vars, self.params, self.globals):
+        # params is not searched: once the routine is entered vars *is* params,
+        # and before that (between CTX and JSR) the arguments being evaluated
+        # belong to the caller's scope.
+        for place in (self.constants, self.vars, self.globals):
             if identifier in place:
                 return place[identifier]
         return None
